@@ -22,7 +22,7 @@ from .c10 import SHORT_ALPHABET
 
 
 def judge_total(rep, text, obs, counts):
-    for key in ("none", "default"):
+    for key in ("none", "default", "debug"):
         o = obs[key]
         counts[o["class"]] = counts.get(o["class"], 0) + 1
         if o["class"] in ("other", "timeout"):
@@ -85,7 +85,7 @@ def run(tier: str) -> int:
     rep.exhaustive = True
     rep.rule = (
         f"all strings over the {len(SHORT_ALPHABET)}-symbol grammar alphabet up to length {n} (TLC-enumerated) and of length {n + 1} (harness), exhaustively; plus the C10 text streams "
-        "(probes, bundled grammars, rendered sentences, token/char mutations, prefixes); each loaded with optimizer=None and the default optimizer; every text is distinct"
+        "(probes, bundled grammars, rendered sentences, token/char mutations, prefixes); each loaded with optimizer=None, with the default optimizer and with the default optimizer and debug=True; every text is distinct"
     )
     rep.assumptions = ["both column conventions (0- or 1-based) accepted for the position", "a PestGrammarError without a position is allowed"]
     return rep.finish()
